@@ -21,6 +21,20 @@ type Op struct {
 	Run  func(scratch string) string
 }
 
+// capture: in the sequential frozen-globals stage (and only there: the flag is never written while operations run
+// concurrently) an operation leaves the list it returned or transformed here, so that the stage can overwrite
+// every field of it and see whether package-level state moved with it (a result must not alias package state).
+var (
+	captureOn bool
+	captured  *astisub.Subtitles
+)
+
+func keep(s *astisub.Subtitles) {
+	if captureOn {
+		captured = s
+	}
+}
+
 func readOp(name, format string, data []byte) Op {
 	return Op{name, func(string) string {
 		s, err, pan := corpus.Read(format, bytes.NewReader(append([]byte{}, data...)))
@@ -30,6 +44,7 @@ func readOp(name, format string, data []byte) Op {
 		if err != nil {
 			return "error: " + err.Error()
 		}
+		keep(s)
 		return dump.Subs(s)
 	}}
 }
@@ -92,6 +107,7 @@ func transformOp(name string, f func(s *astisub.Subtitles)) Op {
 		if pan != "" {
 			return "panic: " + pan
 		}
+		keep(s)
 		return dump.Subs(s)
 	}}
 }
@@ -200,6 +216,7 @@ func Ops() []Op {
 		transformOp("order", func(s *astisub.Subtitles) { s.Order() }),
 		transformOp("removestyling", func(s *astisub.Subtitles) { s.RemoveStyling() }),
 		transformOp("forceduration", func(s *astisub.Subtitles) { s.Order(); s.ForceDuration(4*time.Second, true) }),
+		transformOp("forceduration-filler", func(s *astisub.Subtitles) { s.Order(); s.ForceDuration(10*time.Second, true) }),
 		transformOp("linear", func(s *astisub.Subtitles) {
 			s.ApplyLinearCorrection(time.Second, 2*time.Second, 5*time.Second, 7*time.Second)
 		}),
